@@ -5,5 +5,8 @@ if [ -z "${VERIF_DIR:-}" ]; then
 fi
 export VERIF_DIR
 export VERIF_BUILD="$VERIF_DIR/.build"
+# the tree under test (always /repo for the registered checks; development
+# aids may point it at a scratch copy)
+export VERIF_REPO="${VERIF_REPO:-/repo}"
 export GOCACHE="${GOCACHE:-$VERIF_BUILD/gocache}"
 mkdir -p "$VERIF_BUILD"
